@@ -35,7 +35,13 @@ def cons(rng, c, plain=False):
     toks = [n for n, on in zip(("dx", "dy", "rz"), c) if on]
     if plain:
         return "{ " + "".join(t + " " for t in toks) + "}"
-    style = rng.randrange(6)
+    style = rng.randrange(7)
+    if style == 6 and len(toks) > 1:
+        # the braces hold a set: any order of the terms
+        toks = list(toks)
+        while toks == [n for n, on in zip(("dx", "dy", "rz"), c) if on]:
+            rng.shuffle(toks)
+        return "{ " + " ".join(toks) + " }"
     if style == 4:
         return "{\t" + " \t".join(toks) + ("\t" if toks else "") + "}"
     if style == 5:
@@ -121,6 +127,11 @@ def layout(rng, s, plain=False, order=None):
         for l in ls:
             if not plain and rng.random() < 0.15:
                 out.append(rng.choice(["", "  ", "# " + l, "\t"]))
+            if not plain and rng.random() < 0.04:
+                # a comment longer than any reader buffer, ending in something that looks like data
+                out.append("# " + "long comment " * 400 + " fy ld 1 0 -75 1 -75")
+            if not plain and rng.random() < 0.03:
+                l = l + " " * 5000
             out.append(l if plain else rng.choice(["", "", " ", "\t", "   "]) + l + rng.choice(["", "", " ", "  \t"]))
         out.append("")
     text = eol.join(out) + (eol if plain or rng.random() < 0.8 else "")
